@@ -8,6 +8,10 @@ import PMH.Model.Sig
 import PMH.Model.Jaccard
 import PMH.Model.Mle
 import PMH.Model.ParamsJson
+import PMH.Model.Exp01
+import PMH.Model.Exp1
+import PMH.Model.ProbMinHash3
+import PMH.Model.ProbMinHash2
 import Std.Data.HashMap
 /-!
 # `pmhdriver`: line protocol in front of the executable models
@@ -21,6 +25,8 @@ open PMH
 structure DState where
   mt : Std.HashMap String (Tracker Float) := {}
   fy : Std.HashMap String FY := {}
+  pmh3 : Std.HashMap String (PMH3 Float Xo × Exp01 Float) := {}
+  pmh2 : Std.HashMap String (PMH2 Float) := {}
 
 def errWord (e : Err) : String :=
   match e with
@@ -204,6 +210,93 @@ def stepPj : List String → String
     | none => "bad-op"
   | _ => "bad-op"
 
+def expOps : ExpOps Float := { exp := Float.exp, ln := Float.log, expm1 := Float.expm1 }
+
+def pmh3Src (e : Exp01 Float) (m : Nat) : Src Float Xo :=
+  { nextX := fun g => Exp01.sample expOps e unif01 g, nextK := fun g => unifUsize 0 m g }
+
+def pmh2Src : Src2 Float Xo := { nextE := exp1, nextU := fun g => .ok g.next }
+
+/-- item token `id:whex:seedhex` (seed_from_u64) or `id:whex:a:b:c:d` (from_seed words) -/
+def parseItem (t : String) : Option (Nat × Float × Xo) :=
+  match t.splitOn ":" with
+  | [id, w, sd] => match id.toNat?, f64OfHex w, u64OfHex sd with
+    | some id, some w, some sd => some (id, w, Xo.seedFromU64 sd)
+    | _, _, _ => none
+  | [id, w, a, b, c, d] => match id.toNat?, f64OfHex w, u64OfHex a, u64OfHex b, u64OfHex c, u64OfHex d with
+    | some id, some w, some a, some b, some c, some d => some (id, w, Xo.fromWords a b c d)
+    | _, _, _, _, _, _ => none
+  | _ => none
+
+def okWeight3a (w : Float) : Bool := w.isFinite && w >= 0.0
+
+def stepPmh3 (st : DState) : List String → DState × String
+  | ["new", n, m, init] => match m.toNat?, init.toNat? with
+    | some m, some init =>
+      (match (PMH3.new f64Max m init : Except Err (PMH3 Float Xo)) with
+       | .ok s =>
+         let lambda := Float.log (m.toFloat / (m - 1).toFloat)
+         ({ st with pmh3 := st.pmh3.insert n (s, Exp01.new expOps lambda) }, "ok")
+       | .error e => (st, errWord e))
+    | _, _ => (st, "bad-op")
+  | ["item", n, tok] => match st.pmh3[n]?, parseItem tok with
+    | some (s, e), some (id, w, g) =>
+      (match s.hashItem (pmh3Src e s.m) 100000 id w g with
+       | .ok s' => ({ st with pmh3 := st.pmh3.insert n (s', e) }, "ok")
+       | .error er => (st, errWord er))
+    | _, _ => (st, "bad-op")
+  | "batch" :: n :: toks => match st.pmh3[n]?, toks.mapM parseItem with
+    | some (s, e), some items =>
+      (match s.hashBatch (pmh3Src e s.m) okWeight3a 100000 items with
+       | .ok s' => ({ st with pmh3 := st.pmh3.insert n (s', e) }, "ok")
+       | .error er => (st, errWord er))
+    | _, _ => (st, "bad-op")
+  | ["sig", n] => match st.pmh3[n]? with
+    | some (s, _) => (st, dumpNats s.sig)
+    | none => (st, "bad-op")
+  | ["regs", n] => match st.pmh3[n]? with
+    | some (s, _) => (st, joinSp ((s.tracker.vals.toList.take s.m).map f64Hex))
+    | none => (st, "bad-op")
+  | _ => (st, "bad-op")
+
+def stepPmh2 (st : DState) : List String → DState × String
+  | ["new", n, m, init] => match m.toNat?, init.toNat? with
+    | some m, some init => ({ st with pmh2 := st.pmh2.insert n (PMH2.new f64Max m init) }, "ok")
+    | _, _ => (st, "bad-op")
+  | ["item", n, tok] => match st.pmh2[n]?, parseItem tok with
+    | some s, some (id, w, g) =>
+      (match s.hashItem pmh2Src FY.offsetOf unif01OfU64 id w g with
+       | .ok s' => ({ st with pmh2 := st.pmh2.insert n s' }, "ok")
+       | .error er => (st, errWord er))
+    | _, _ => (st, "bad-op")
+  | ["reset", n] => match st.pmh2[n]? with
+    | some s => ({ st with pmh2 := st.pmh2.insert n (s.reset f64Max) }, "ok")
+    | none => (st, "bad-op")
+  | ["sig", n] => match st.pmh2[n]? with
+    | some s => (st, dumpNats s.sig)
+    | none => (st, "bad-op")
+  | ["regs", n] => match st.pmh2[n]? with
+    | some s => (st, joinSp ((s.tracker.vals.toList.take s.m).map f64Hex))
+    | none => (st, "bad-op")
+  | _ => (st, "bad-op")
+
+def stepExp : List String → String
+  -- `exp01 <lambda hex> <seed hex> <n>` : n samples, and the generator's next raw word afterwards
+  | ["exp01", l, sd, n] => match f64OfHex l, u64OfHex sd, n.toNat? with
+    | some l, some sd, some n =>
+      let e := Exp01.new expOps l
+      (match iterE (fun g => Exp01.sample expOps e unif01 g) n (Xo.seedFromU64 sd) with
+       | .ok xs => joinSp (xs.map f64Hex)
+       | .error er => errWord er)
+    | _, _, _ => "bad-op"
+  | ["exp01c", l] => match f64OfHex l with
+    | some l => let e := Exp01.new expOps l; joinSp [f64Hex e.c1, f64Hex e.c2, f64Hex e.c3]
+    | none => "bad-op"
+  | ["exp1", sd, n] => match u64OfHex sd, n.toNat? with
+    | some sd, some n => (match iterE exp1 n (Xo.seedFromU64 sd) with | .ok xs => joinSp (xs.map f64Hex) | .error er => errWord er)
+    | _, _ => "bad-op"
+  | _ => "bad-op"
+
 def step (st : DState) (line : String) : DState × String :=
   match (line.trimAscii.toString.splitOn " ").filter (· ≠ "") with
   | "case" :: id :: _ => (st, "case " ++ id)
@@ -214,6 +307,9 @@ def step (st : DState) (line : String) : DState × String :=
   | "sig" :: rest => (st, stepSig rest)
   | "jac" :: rest => (st, stepJac rest)
   | "pj" :: rest => (st, stepPj rest)
+  | "pmh3" :: rest => stepPmh3 st rest
+  | "pmh2" :: rest => stepPmh2 st rest
+  | "rnd" :: rest => (st, stepExp rest)
   | _ => (st, "bad-op")
 
 partial def loop (h : IO.FS.Stream) (out : IO.FS.Stream) (st : DState) : IO Unit := do
